@@ -35,6 +35,7 @@ type c06Prog struct {
 	PolArg   int          `json:"polarg"`
 	Deny     bool         `json:"denyAppend"`         // also try an append the policy denies
 	Conc     int          `json:"conc"`               // LogOptions.Concurrency of the destination (0 = default)
+	Bound    int          `json:"bound,omitempty"`    // 0: unbounded merge; k > 0: the merge carries the size bound (k-1) mod (candidates+3)
 	SharedAC bool         `json:"sharedAC,omitempty"` // the source log is guarded by the very access-controller object of the destination (it was built from entries, so the controller never saw them)
 	InPlace  bool         `json:"inPlace"`            // corrupt the source's entry objects themselves (they were verified by an earlier merge) instead of copies
 }
@@ -57,6 +58,9 @@ func genC06(t *rapid.T) c06Prog {
 	p.Conc = rapid.SampledFrom([]int{0, 0, 1, 2, 3, 4, 5, 7}).Draw(t, "conc")
 	p.InPlace = rapid.IntRange(0, 2).Draw(t, "inPlace") == 0
 	p.SharedAC = rapid.IntRange(0, 2).Draw(t, "sharedAC") == 0
+	if rapid.IntRange(0, 3).Draw(t, "bounded") == 0 {
+		p.Bound = rapid.IntRange(1, 1<<10).Draw(t, "bound")
+	}
 	return p
 }
 
@@ -305,7 +309,12 @@ func runC06(tb ev.TB, p c06Prog) ev.Result {
 	}
 	before := takeSnap(dst)
 	probeBefore := appendProbe(tb, w, dst, pol)
-	ret, jerr := dst.Join(srcLog, -1)
+	size := -1
+	if p.Bound > 0 {
+		size = (p.Bound - 1) % (len(cands) + 3) // a size-bounded merge validates every candidate all the same
+		classes = append(classes, "size-bounded-merge")
+	}
+	ret, jerr := dst.Join(srcLog, size)
 	pol.ctxWant = nil // the context policy is about this merge only
 	after := takeSnap(dst)
 	if len(invalid) > 0 {
@@ -327,8 +336,24 @@ func runC06(tb ev.TB, p c06Prog) ev.Result {
 		_ = ret
 		want := dstModel.Clone()
 		want.Union(cands)
-		if got := world.SetOf(after.Entries); !got.Equal(want) {
+		if got := world.SetOf(after.Entries); size < 0 && !got.Equal(want) {
 			tb.Fatalf("accepted merge: entries %v, want destination ∪ candidates %v", world.Shorts(got.Sorted()), world.Shorts(want.Sorted()))
+		} else if size >= 0 {
+			// which entries a bounded merge keeps is C16's business; here: nothing foreign, and the right number
+			for h := range got {
+				if !want.Has(h) {
+					tb.Fatalf("accepted bounded merge holds %s, which is neither the destination's nor a candidate", world.Short(h))
+				}
+			}
+			if n := len(want); (size < n && len(got) != size) || (size >= n && len(got) != n) {
+				tb.Fatalf("accepted merge with bound %d over %d entries holds %d", size, n, len(got))
+			}
+		}
+	}
+	// never: a head that is not an entry of the log (say, a head of the source that was not merged)
+	for _, h := range dst.Heads().Slice() {
+		if _, ok := dst.Get(h.GetHash()); !ok {
+			tb.Fatalf("after the merge the log has head %s (log id %q), which is not one of its entries", world.Short(h.GetHash().String()), h.GetLogID())
 		}
 	}
 	// never: a foreign log id, an unverifiable or denied entry inside the log
